@@ -1052,6 +1052,541 @@ fn run_durations(cx: &mut Ctx, dtds: &[i128], ymds: &[i64], dtd_pairs: &[(i128, 
 }
 
 // ---------------------------------------------------------------------------------------------
+// family 4b: pairs of date-times that straddle a wall-clock boundary
+//
+// Two instants within a few hours of a wall-clock boundary (turn of a year, of a month incl. the end of
+// February in leap and common years, of a day, of an hour, and the daylight-saving switch of a named zone),
+// each written with its own offset (-14:00 … +14:00) or named zone so that the two TEXTS lie on different
+// sides of the boundary while the two INSTANTS are in the opposite order, equal, or (control) in the same
+// order. Every comparison operator, both differences and the between / in forms are judged against the
+// instant arithmetic of the Lean specification (`c15 cmp` / `c15 sub`, specification half); the offsets of
+// named zones come from corpus/C15/zone_transitions.json (python zoneinfo), not from the implementation.
+
+fn days_from_civil(y: i64, m: i64, d: i64) -> i64 {
+  let y = if m <= 2 { y - 1 } else { y };
+  let era = y.div_euclid(400);
+  let yoe = y - era * 400;
+  let mp = (m + 9) % 12;
+  let doy = (153 * mp + 2) / 5 + d - 1;
+  let doe = yoe * 365 + yoe / 4 - yoe / 100 + doy;
+  era * 146_097 + doe - 719_468
+}
+
+fn civil_from_days(z: i64) -> (i64, i64, i64) {
+  let z = z + 719_468;
+  let era = z.div_euclid(146_097);
+  let doe = z - era * 146_097;
+  let yoe = (doe - doe / 1460 + doe / 36_524 - doe / 146_096) / 365;
+  let y = yoe + era * 400;
+  let doy = doe - (365 * yoe + yoe / 4 - yoe / 100);
+  let mp = (5 * doy + 2) / 153;
+  let d = doy - (153 * mp + 2) / 5 + 1;
+  let m = if mp < 10 { mp + 3 } else { mp - 9 };
+  (if m <= 2 { y + 1 } else { y }, m, d)
+}
+
+/// The rules of a named zone over the span of the table: offset at the start and the transitions
+/// `(epoch seconds, offset from then on)`.
+#[derive(Clone, Debug)]
+struct ZoneRules {
+  name: String,
+  initial: i64,
+  trs: Vec<(i64, i64)>,
+  from: i64,
+  to: i64,
+}
+
+impl ZoneRules {
+  fn off_at(&self, t: i64) -> Option<i64> {
+    if t < self.from || t >= self.to {
+      return None;
+    }
+    let mut o = self.initial;
+    for (s, n) in &self.trs {
+      if *s <= t {
+        o = *n;
+      } else {
+        break;
+      }
+    }
+    Some(o)
+  }
+  fn offsets(&self) -> Vec<i64> {
+    let mut v = vec![self.initial];
+    for (_, n) in &self.trs {
+      if !v.contains(n) {
+        v.push(*n);
+      }
+    }
+    v
+  }
+  /// The local time (seconds on the naive line) is the wall clock of exactly one instant, and no
+  /// transition of the zone is nearer than a second (neither skipped nor repeated).
+  fn plain(&self, local: i64) -> bool {
+    let mut n = 0;
+    for o in self.offsets() {
+      if self.off_at(local - o) == Some(o) {
+        n += 1;
+      }
+    }
+    n == 1
+  }
+}
+
+fn load_zone_rules(rep: &mut Report) -> Vec<ZoneRules> {
+  let path = concat!(env!("CARGO_MANIFEST_DIR"), "/../corpus/C15/zone_transitions.json");
+  let table: serde_json::Value = std::fs::read_to_string(path).ok().and_then(|t| serde_json::from_str(&t).ok()).unwrap_or(json!({}));
+  let (from, to) = (table["from"].as_i64().unwrap_or(0), table["to"].as_i64().unwrap_or(0));
+  let mut out = vec![];
+  if let Some(zs) = table["zones"].as_object() {
+    // serde_json's map is ordered by key: the order of the zones is the same on every run
+    for (name, v) in zs {
+      let trs: Vec<(i64, i64)> = v["transitions"].as_array().cloned().unwrap_or_default().iter().filter_map(|p| Some((p[0].as_i64()?, p[1].as_i64()?))).collect();
+      if let Some(initial) = v["initial"].as_i64() {
+        out.push(ZoneRules { name: name.clone(), initial, trs, from, to });
+      }
+    }
+  }
+  if out.is_empty() {
+    rep.notes.push("corpus/C15/zone_transitions.json not found or empty: no named zones in the boundary family".into());
+  }
+  out
+}
+
+#[derive(Clone, Debug)]
+enum Writer {
+  Off(i64),
+  Named(usize),
+}
+
+/// One side of a boundary pair: the instant (epoch seconds + nanoseconds), the text that writes it and,
+/// for a named zone, the offset the zone table gives.
+#[derive(Clone, Debug)]
+struct Written {
+  t: i64,
+  dt: Dt,
+  table_offset: Option<i64>,
+}
+
+fn write_instant(t: i64, ns: i64, w: &Writer, zones: &[ZoneRules]) -> Option<Written> {
+  let (off, z, table_offset) = match w {
+    Writer::Off(o) => (*o, fix_zero(Zone::Offset(*o)), None),
+    Writer::Named(i) => {
+      let r = &zones[*i];
+      let o = r.off_at(t)?;
+      // keep clear of skipped and repeated local times (and of the second next to them)
+      if !(r.plain(t + o) && r.plain(t + o - 1) && r.plain(t + o + 1)) {
+        return None;
+      }
+      (o, Zone::Named(r.name.clone()), Some(o))
+    }
+  };
+  let local = t + off;
+  let (y, m, d) = civil_from_days(local.div_euclid(86_400));
+  let sod = local.rem_euclid(86_400);
+  Some(Written { t, dt: Dt { y, m, d, h: sod / 3600, mi: sod % 3600 / 60, s: sod % 60, ns, z }, table_offset })
+}
+
+#[derive(Clone, Debug)]
+struct BPair {
+  kind: &'static str,
+  mode: &'static str,
+  a: Written,
+  b: Written,
+  /// 0: date(y,m,d) + time literal, 1: `date and time("…")`, 2: `@"…"`
+  form: u8,
+}
+
+fn dt_literal_text(x: &Dt) -> String {
+  format!("{}{:04}-{:02}-{:02}T{}", if x.y < 0 { "-" } else { "" }, x.y.abs(), x.m, x.d, x.time_text())
+}
+
+fn dt_form_expr(x: &Dt, form: u8) -> String {
+  match form {
+    1 => format!("date and time(\"{}\")", dt_literal_text(x)),
+    2 => format!("@\"{}\"", dt_literal_text(x)),
+    _ => x.expr(),
+  }
+}
+
+fn boundary_offset(rng: &mut Rng) -> i64 {
+  match rng.below(10) {
+    0 => 3600 * rng.range(-14, 14),
+    1 => *rng.pick(&[-50_400i64, 50_400, -43_200, 43_200, 46_800, 49_500, 0, 0]),
+    2 => rng.range(-50_400, 50_400),
+    3 => 1800 * rng.range(-28, 28),
+    _ => 900 * rng.range(-56, 56),
+  }
+}
+
+fn boundary_ns(rng: &mut Rng) -> i64 {
+  match rng.below(10) {
+    0 => 500_000_000,
+    1 => rng.range(1, 999) * 1_000_000,
+    2 => *rng.pick(&[1i64, 999_999_999, 100_000_000]),
+    _ => 0,
+  }
+}
+
+const H15: i64 = 15 * 3600;
+
+/// A pair around the naive wall-clock moment `bnd` (seconds on the naive line): `a` is written at or
+/// after it, `b` before it; the instants are equal (`eq`), in the opposite order (`opp`: a before b) or
+/// in the same order (`same`).
+fn straddle(rng: &mut Rng, bnd: i64, mode: &'static str, zones: &[ZoneRules], named: bool) -> Option<(Written, Written)> {
+  let pick_writer = |rng: &mut Rng| -> Writer {
+    if named && !zones.is_empty() && rng.chance(2, 5) {
+      Writer::Named(rng.below(zones.len() as u64) as usize)
+    } else {
+      Writer::Off(boundary_offset(rng))
+    }
+  };
+  let (wa, wb) = (pick_writer(rng), pick_writer(rng));
+  // the offset a named zone has around the boundary (verified after the instant is fixed)
+  let guess = |w: &Writer| -> Option<i64> {
+    match w {
+      Writer::Off(o) => Some(*o),
+      Writer::Named(i) => {
+        let r = &zones[*i];
+        let o0 = r.off_at(bnd - r.initial)?;
+        r.off_at(bnd - o0)
+      }
+    }
+  };
+  let (oa, ob) = (guess(&wa)?, guess(&wb)?);
+  let dd = oa - ob;
+  let total = match mode {
+    "eq" => dd,
+    "opp" => {
+      if dd < 2 {
+        return None;
+      }
+      let eps = match rng.below(5) {
+        0 => 1,
+        1 => 60,
+        2 => 3600,
+        3 => 1800,
+        _ => rng.range(1, dd - 1),
+      };
+      dd - eps.min(dd - 1)
+    }
+    _ => {
+      let eps = match rng.below(4) {
+        0 => 1,
+        1 => 60,
+        2 => 3600,
+        _ => rng.range(1, H15),
+      };
+      dd + eps
+    }
+  };
+  // total = da + db with 0 <= da < 15 h (a at or after the boundary), 1 <= db <= 15 h (b before it)
+  let lo = (total - (H15 - 1)).max(1);
+  let hi = total.min(H15);
+  if lo > hi {
+    return None;
+  }
+  let db = match rng.below(6) {
+    0 => lo,
+    1 => hi,
+    _ => rng.range(lo, hi),
+  };
+  let da = total - db;
+  let (ta, tb) = (bnd + da - oa, bnd - db - ob);
+  let (na, nb) = match (mode, rng.below(4)) {
+    ("eq", 0) => {
+      let n = boundary_ns(rng);
+      (n, n)
+    }
+    ("eq", _) => (0, 0),
+    _ => (boundary_ns(rng), boundary_ns(rng)),
+  };
+  let a = write_instant(ta, na, &wa, zones)?;
+  let b = write_instant(tb, nb, &wb, zones)?;
+  // the named zones must have had the guessed offsets, otherwise the texts are not where they should be
+  let wall = |x: &Written| days_from_civil(x.dt.y, x.dt.m, x.dt.d) * 86_400 + x.dt.h * 3600 + x.dt.mi * 60 + x.dt.s;
+  if wall(&a) < bnd || wall(&b) >= bnd {
+    return None;
+  }
+  Some((a, b))
+}
+
+/// Pairs around the daylight-saving switch `k` of zone `zi`: at least one side is written in the zone.
+fn around_switch(rng: &mut Rng, zi: usize, k: usize, zones: &[ZoneRules]) -> Option<(Written, Written, &'static str)> {
+  let r = &zones[zi];
+  let (s, o_new) = r.trs[k];
+  let o_old = if k == 0 { r.initial } else { r.trs[k - 1].1 };
+  let near = |rng: &mut Rng| -> i64 {
+    match rng.below(4) {
+      0 => rng.range(0, 3600),
+      1 => rng.range(0, 4 * 3600),
+      2 => 60 * rng.range(0, 180),
+      _ => rng.range(0, H15),
+    }
+  };
+  match rng.below(4) {
+    0 => {
+      // both in the zone, one on each side of the switch: the wall clocks jump, the instants do not
+      let a = write_instant(s + near(rng), boundary_ns(rng), &Writer::Named(zi), zones)?;
+      let b = write_instant(s - 1 - near(rng), boundary_ns(rng), &Writer::Named(zi), zones)?;
+      Some((a, b, "same"))
+    }
+    1 | 2 => {
+      // one in the zone right after (before) the switch, the other with the offset of the other side (or any
+      // offset), a little later (earlier) on the time line but earlier (later) on the wall clock
+      let after = rng.chance(1, 2);
+      let ta = if after { s + near(rng) } else { s - 1 - near(rng) };
+      let o_here = if after { o_new } else { o_old };
+      let o_b = if rng.chance(1, 2) { if after { o_old } else { o_new } } else { boundary_offset(rng) };
+      let dd = o_b - o_here;
+      let (eps, mode) = if dd == 0 {
+        (rng.range(-3600, 3600), "same")
+      } else if rng.chance(1, 4) {
+        (-dd, "eq-wall")
+      } else if rng.chance(1, 5) {
+        (0, "eq")
+      } else {
+        // wall_b - wall_a = eps + dd: opposite sign to eps
+        let m = dd.abs() - 1;
+        if m < 1 {
+          return None;
+        }
+        let e = rng.range(1, m);
+        (if dd < 0 { e } else { -e }, "opp")
+      };
+      let a = write_instant(ta, 0, &Writer::Named(zi), zones)?;
+      let b = write_instant(ta + eps, if mode == "eq" { 0 } else { boundary_ns(rng) }, &Writer::Off(o_b), zones)?;
+      Some((a, b, mode))
+    }
+    _ => {
+      // the zone against another named zone, instants at most a few hours apart
+      let zj = rng.below(zones.len() as u64) as usize;
+      let ta = if rng.chance(1, 2) { s + near(rng) } else { s - 1 - near(rng) };
+      let eps = match rng.below(3) {
+        0 => 0,
+        1 => rng.range(-3600, 3600),
+        _ => rng.range(-H15, H15),
+      };
+      let a = write_instant(ta, 0, &Writer::Named(zi), zones)?;
+      let b = write_instant(ta + eps, 0, &Writer::Named(zj), zones)?;
+      Some((a, b, if eps == 0 { "eq" } else { "any" }))
+    }
+  }
+}
+
+fn boundary_pairs(rng: &mut Rng, thorough: bool, zones: &[ZoneRules]) -> Vec<BPair> {
+  let scale = if thorough { 6 } else { 1 };
+  // (kind, naive seconds of the boundary)
+  let mut bnds: Vec<(&'static str, i64, i64)> = vec![]; // (kind, boundary, pairs wanted)
+  let at = |y: i64, m: i64, d: i64, h: i64| days_from_civil(y, m, d) * 86_400 + h * 3600;
+  // turns of the year
+  let mut years: Vec<i64> = vec![-4, -1, 0, 1, 2, 100, 1000, 1583, 1600, 1900, 1970, 2000, 2001, 2012, 2013, 2016, 2017, 2019, 2020, 2021, 2022, 2024, 2025, 2100, 2400, 9999, 10_000, 99_999, -9999, 200_000, -200_000];
+  for _ in 0..(30 * scale) {
+    years.push(rng.range(-3000, 3000));
+  }
+  for _ in 0..(10 * scale) {
+    years.push(rng.range(2013, 2020));
+  }
+  for y in &years {
+    bnds.push(("year", at(*y, 1, 1, 0), 12));
+  }
+  // turns of the month: every month of a leap year, a common year, a common and a leap century year
+  for y in [2023i64, 2024, 1900, 2000, 2016, 2019] {
+    for m in 1..=12 {
+      bnds.push(("month", at(y, m, 1, 0), if m == 3 || m == 2 { 8 } else { 4 }));
+    }
+  }
+  for _ in 0..(40 * scale) {
+    let ys = [rng.range(-3000, 3000), rng.range(1900, 2100), rng.range(2012, 2020), 4 * rng.range(400, 600), 100 * rng.range(10, 30)];
+    let y = *rng.pick(&ys);
+    let m = if rng.chance(1, 2) { 3 } else { rng.range(1, 12) };
+    bnds.push(("month", at(y, m, 1, 0), 5));
+  }
+  // turns of the day
+  for _ in 0..(60 * scale) {
+    let ys = [rng.range(-3000, 3000), rng.range(1900, 2100), rng.range(2012, 2020)];
+    let y = *rng.pick(&ys);
+    let m = rng.range(1, 12);
+    bnds.push(("day", at(y, m, rng.range(1, dim(y, m)), 0), 5));
+  }
+  // turns of the hour
+  for _ in 0..(20 * scale) {
+    let ys = [rng.range(-3000, 3000), rng.range(2012, 2020)];
+    let y = *rng.pick(&ys);
+    let m = rng.range(1, 12);
+    bnds.push(("hour", at(y, m, rng.range(1, dim(y, m)), rng.range(1, 23)), 4));
+  }
+  let mut out: Vec<BPair> = vec![];
+  let modes: [&'static str; 6] = ["opp", "eq", "opp", "same", "opp", "eq"];
+  for (kind, bnd, want) in &bnds {
+    let in_table = zones.first().map(|z| *bnd - 2 * 86_400 > z.from && *bnd + 2 * 86_400 < z.to).unwrap_or(false);
+    let mut made = 0;
+    let mut tries = 0;
+    while made < *want && tries < 20 * *want {
+      tries += 1;
+      let mode = modes[(made as usize + tries as usize) % modes.len()];
+      if let Some((a, b)) = straddle(rng, *bnd, mode, zones, in_table) {
+        let lit_ok = |x: &Dt| (1000..=9999).contains(&x.y.abs());
+        let form = if lit_ok(&a.dt) && lit_ok(&b.dt) { rng.below(3) as u8 } else { 0 };
+        // both orders of the operands
+        let (a, b) = if rng.chance(1, 2) { (a, b) } else { (b, a) };
+        out.push(BPair { kind, mode, a, b, form });
+        made += 1;
+      }
+    }
+  }
+  // the daylight-saving switches of the named zones
+  for (zi, r) in zones.iter().enumerate() {
+    for k in 0..r.trs.len() {
+      let want = 4 * scale;
+      let mut made = 0;
+      let mut tries = 0;
+      while made < want && tries < 20 * want {
+        tries += 1;
+        if let Some((a, b, mode)) = around_switch(rng, zi, k, zones) {
+          let form = rng.below(3) as u8;
+          let (a, b) = if rng.chance(1, 2) { (a, b) } else { (b, a) };
+          out.push(BPair { kind: "dst-switch", mode, a, b, form });
+          made += 1;
+        }
+      }
+    }
+  }
+  out
+}
+
+/// `a ? b` for the twenty forms evaluated on a boundary pair, from the order and the difference of the instants.
+fn boundary_expected(ord: &str, diff: i128) -> Vec<String> {
+  let (lt, eq, gt) = (ord == "lt", ord == "eq", ord == "gt");
+  let b = |x: bool| if x { "true".to_string() } else { "false".to_string() };
+  vec![
+    b(lt), b(lt || eq), b(eq), b(gt || eq), b(gt), b(!eq),
+    format!("(dtd {})", diff), format!("(dtd {})", -diff),
+    b(lt), b(lt || eq), b(gt), b(gt || eq),
+    b(lt || eq), b(gt || eq), b(lt || eq), b(gt || eq), b(gt), b(lt), b(eq), b(eq),
+  ]
+}
+
+const BOUNDARY_FORMS: [&str; 20] = [
+  "a < b", "a <= b", "a = b", "a >= b", "a > b", "a != b", "a - b", "b - a", "a in (< b)", "a in (<= b)", "a in (> b)", "a in (>= b)",
+  "a between a and b", "a between b and a", "a in [a..b]", "a in [b..a]", "a in (b..a]", "a in [a..b)", "b in [a..a]", "a between b and b",
+];
+
+fn run_dt_boundary(cx: &mut Ctx, pairs: &[BPair]) {
+  let ok = |cx: &mut Ctx, x: &Dt, form: u8| -> bool {
+    let e = dt_form_expr(x, form);
+    let o = feel(&e);
+    if o == x.obs() {
+      true
+    } else {
+      cx.rep.hit("skipped:construction-differs");
+      cx.rep.disagree(Kind::ImplVsSpec, "construction", "C15 a date and time literal does not denote the written date, time and offset", &e, &o, &x.obs());
+      false
+    }
+  };
+  let mut live: Vec<&BPair> = vec![];
+  for p in pairs {
+    if ok(cx, &p.a.dt, p.form) && ok(cx, &p.b.dt, p.form) {
+      live.push(p);
+    }
+  }
+  let orc = |w: &Written| w.table_offset.map(|o| o.to_string()).unwrap_or_else(|| "none".to_string());
+  let mut reqs = vec![];
+  for p in &live {
+    reqs.push(format!("(c15 cmp ({}) {} ({}) {})", p.a.dt.fields(), orc(&p.a), p.b.dt.fields(), orc(&p.b)));
+    reqs.push(format!("(c15 sub ({}) {} ({}) {})", p.a.dt.fields(), orc(&p.a), p.b.dt.fields(), orc(&p.b)));
+  }
+  let answers = cx.model.ask_batch(&reqs);
+  for (i, p) in live.iter().enumerate() {
+    let (req_c, ans_c, ans_s) = (&reqs[2 * i], &answers[2 * i], &answers[2 * i + 1]);
+    let e = format!("{{a: {}, b: {}, r: [{}]}}.r", dt_form_expr(&p.a.dt, p.form), dt_form_expr(&p.b.dt, p.form), BOUNDARY_FORMS.join(", "));
+    let obs: Vec<String> = feel_list(&e).iter().map(|s| norm_panic(s)).collect();
+    cx.rep.case(&format!("boundary {}", req_c), true);
+    cx.rep.hit(&format!("boundary:{}", p.kind));
+    cx.rep.hit(&format!("boundary-mode:{}", p.mode));
+    cx.rep.hit(match (&p.a.dt.z, &p.b.dt.z) {
+      (Zone::Named(_), Zone::Named(_)) => "boundary-writers:zone+zone",
+      (Zone::Named(_), _) | (_, Zone::Named(_)) => "boundary-writers:zone+offset",
+      _ => "boundary-writers:offset+offset",
+    });
+    let wall = |x: &Dt| (x.y, x.m, x.d, x.h, x.mi, x.s, x.ns);
+    let wall_ord = wall(&p.a.dt).cmp(&wall(&p.b.dt));
+    let inst_ord = (p.a.t as i128 * 1_000_000_000 + p.a.dt.ns as i128).cmp(&(p.b.t as i128 * 1_000_000_000 + p.b.dt.ns as i128));
+    cx.rep.hit(if inst_ord == std::cmp::Ordering::Equal {
+      "boundary-order:same-instant"
+    } else if wall_ord != inst_ord {
+      "boundary-order:wall-clock-opposite-to-instants"
+    } else {
+      "boundary-order:wall-clock-like-instants"
+    });
+    if p.a.dt.y != p.b.dt.y {
+      cx.rep.hit("boundary-texts:years-differ");
+    } else if p.a.dt.m != p.b.dt.m {
+      cx.rep.hit("boundary-texts:months-differ");
+    } else if p.a.dt.d != p.b.dt.d {
+      cx.rep.hit("boundary-texts:days-differ");
+    }
+    let ((mc, sc), (ms, ss)) = match (parse_pair(ans_c), parse_pair(ans_s)) {
+      (Some(c), Some(s)) => ((c.0.to_string(), c.1.to_string()), (s.0.to_string(), s.1.to_string())),
+      _ => {
+        cx.rep.disagree(Kind::ImplVsModel, "boundary", "driver-error", req_c, &obs.join(" "), ans_c);
+        continue;
+      }
+    };
+    // the generator knows the instants it wrote: the specification must see the same order and difference
+    let gen_ord = match inst_ord {
+      std::cmp::Ordering::Less => "lt",
+      std::cmp::Ordering::Equal => "eq",
+      std::cmp::Ordering::Greater => "gt",
+    };
+    let gen_diff = (p.a.t as i128 - p.b.t as i128) * 1_000_000_000 + (p.a.dt.ns as i128 - p.b.dt.ns as i128);
+    if sc != gen_ord || ss != gen_diff.to_string() {
+      cx.rep.disagree(Kind::ImplVsModel, "boundary", "boundary: the specification's instants differ from the instants the generator wrote", req_c, &format!("{} {}", gen_ord, gen_diff), &format!("{} {}", sc, ss));
+      continue;
+    }
+    if obs.len() != BOUNDARY_FORMS.len() {
+      cx.rep.disagree(Kind::ImplVsSpec, "boundary", &format!("C15 boundary ({}): evaluating the comparisons of two date-times fails", p.kind), &e, &obs.join(" "), "a list of twenty values");
+      continue;
+    }
+    let want = boundary_expected(&sc, gen_diff);
+    // the mirror model of compare() / subtract()
+    let icmp = match (obs[2].as_str(), obs[8].as_str(), obs[10].as_str()) {
+      ("true", "false", "false") => "eq",
+      ("false", "true", "false") => "lt",
+      ("false", "false", "true") => "gt",
+      ("null", "null", "null") => "none",
+      _ => "inconsistent",
+    };
+    if icmp != mc && icmp != "inconsistent" {
+      cx.rep.disagree(Kind::ImplVsModel, "datetime_compare_instant", "date-time comparison differs from the model", &e, icmp, &mc);
+    }
+    let isub = if obs[6].starts_with("(dtd ") { obs[6][5..obs[6].len() - 1].to_string() } else { "none".to_string() };
+    if isub != ms {
+      cx.rep.disagree(Kind::ImplVsModel, "datetime_sub_exact", "date-time subtraction differs from the model", &e, &isub, &ms);
+    }
+    // the property: every form as the instants say
+    let mut bad: [Vec<usize>; 3] = [vec![], vec![], vec![]];
+    for k in 0..BOUNDARY_FORMS.len() {
+      if obs[k] != want[k] {
+        bad[if k < 6 { 0 } else if k < 8 { 1 } else { 2 }].push(k);
+      }
+    }
+    let groups = ["comparison (<, <=, =, >=, >, !=) differs from the order of the instants", "difference (a - b, b - a) differs from the difference of the instants", "between / in differs from the order of the instants"];
+    for (g, ks) in bad.iter().enumerate() {
+      if !ks.is_empty() {
+        let sig = format!("C15 boundary ({}): {}", p.kind, groups[g]);
+        let got = ks.iter().map(|k| format!("{} -> {}", BOUNDARY_FORMS[*k], obs[*k])).collect::<Vec<_>>().join("; ");
+        let exp = ks.iter().map(|k| format!("{} -> {}", BOUNDARY_FORMS[*k], want[*k])).collect::<Vec<_>>().join("; ");
+        cx.rep.disagree(Kind::ImplVsSpec, "boundary", &sig, &e, &got, &exp);
+      }
+    }
+    if cx.rep.samples.len() < 9 && wall_ord != inst_ord && p.a.dt.y != p.b.dt.y {
+      cx.rep.sample(json!({"expression": e, "implementation": obs, "cmp model/spec": ans_c, "sub model/spec": ans_s}));
+    }
+  }
+}
+
+// ---------------------------------------------------------------------------------------------
 
 fn random_valid_date(rng: &mut Rng, lo: i64, hi: i64) -> (i64, i64, i64) {
   let y = rng.range(lo, hi);
@@ -1106,7 +1641,7 @@ pub fn run(cfg: &Cfg) -> Report {
 fn run_inner(cfg: &Cfg) -> Report {
   let mut rep = Report::new(
     "C15",
-    "dates (validity, weekday, properties) from date(y,m,d) with month ends, leap days, day 0 and last+1 of years -1..2400 (every day in the thorough tier) and sampled years to ±999999999; date(y,m,d) with fractional, wrapping and out-of-range numbers; pairs of dates (order, whole months); pairs of date-times with offsets and named zones (comparison, subtraction, properties); durations (components, +, -, =, <). Non-trivial: month-end/first/zero days for single dates, distinct operands for pairs; distinct by request line.",
+    "dates (validity, weekday, properties) from date(y,m,d) with month ends, leap days, day 0 and last+1 of years -1..2400 (every day in the thorough tier) and sampled years to ±999999999; date(y,m,d) with fractional, wrapping and out-of-range numbers; pairs of dates (order, whole months); pairs of date-times with offsets and named zones (comparison, subtraction, properties); pairs of date-times within 15 h of a wall-clock boundary (turn of the year, month incl. the end of February in leap and common years, day, hour, daylight-saving switches of named zones) written with offsets -14:00…+14:00 and named zones so that the texts lie on different sides of the boundary while the instants are equal, in the opposite or in the same order (twenty forms: <, <=, =, >=, >, !=, both differences, between and in); durations (components, +, -, =, <). Non-trivial: month-end/first/zero days for single dates, distinct operands for pairs; distinct by request line.",
   );
   if crate::c14::probe_if_requested() {
     return rep;
@@ -1227,6 +1762,10 @@ fn run_inner(cfg: &Cfg) -> Report {
   dtp.push((mk(-262_143, 1, 1, 0, 30, 0, 0, Zone::Offset(3600)), mk(-262_143, 1, 1, 0, 30, 0, 0, Zone::Utc)));
   dtp.push((mk(2021, 6, 1, 12, 0, 0, 0, Zone::Named("Europe/Warsaw".into())), mk(2021, 6, 1, 10, 0, 0, 0, Zone::Utc)));
   dtp.push((mk(2021, 1, 1, 0, 0, 0, 0, Zone::Offset(-1800)), mk(2021, 1, 1, 0, 30, 0, 0, Zone::Utc)));
+  // wall-clock years differ, the instants are equal or in the opposite order (corpus; the class is family 4b)
+  dtp.push((mk(2021, 1, 1, 0, 30, 0, 0, Zone::Offset(7200)), mk(2020, 12, 31, 23, 0, 0, 0, Zone::Utc)));
+  dtp.push((mk(2021, 1, 1, 0, 0, 0, 0, Zone::Offset(3600)), mk(2020, 12, 31, 23, 0, 0, 0, Zone::Utc)));
+  dtp.push((mk(2021, 12, 31, 19, 0, 0, 0, Zone::Named("America/New_York".into())), mk(2022, 1, 1, 0, 0, 0, 0, Zone::Utc)));
   let n_dt = if thorough { 30_000 } else { 4000 };
   for _ in 0..n_dt {
     let span = *rng.pick(&[1i64, 100, 300, 3000, 262_143]);
@@ -1276,6 +1815,15 @@ fn run_inner(cfg: &Cfg) -> Report {
   }
   run_dt_pairs(&mut cx, &dtp);
   run_zone_gaps(&mut cx);
+
+  // ---- pairs that straddle a wall-clock boundary (own random stream: the families above and below keep theirs)
+  {
+    let zones = load_zone_rules(cx.rep);
+    let mut brng = Rng::new(cfg.seed ^ 0x0B0D_A15E);
+    let bp = boundary_pairs(&mut brng, thorough, &zones);
+    cx.rep.extra.insert("boundary_pairs".into(), json!(bp.len()));
+    run_dt_boundary(&mut cx, &bp);
+  }
 
   // properties: every table row (zone offset against zoneinfo) and random date-times
   let mut pd: Vec<Dt> = vec![];
